@@ -171,8 +171,17 @@ class Module:
         self.name = name
         self.path = path
         self.src = open(path, encoding='utf-8').read()
-        self.tree = ast.parse(self.src)
+        self.raw_tree = ast.parse(self.src)
+        self.tree = self.raw_tree
         self.lines = self.src.split('\n')
+        self.normalisation = None
+        self.finish(None)
+
+    def finish(self, sibling_consts):
+        """(re)build the tree the rules see: the source tree canonicalised by normalize.py (see there), then indexed"""
+        if sibling_consts is not None and os.environ.get('N2K_NO_NORMALIZE') != '1':
+            from . import normalize
+            self.tree, self.normalisation = normalize.normalize_module(self.name, ast.parse(self.src), sibling_consts)
         for parent in ast.walk(self.tree):
             for ch in ast.iter_child_nodes(parent):
                 ch._parent = parent
@@ -222,6 +231,18 @@ class Program:
                 except SyntaxError as e:
                     raise AnalysisError(f"{PKG}/{fn} does not parse: {e}")
                 self.digests[f"{PKG}/{fn}"] = sha256_file(p)
+        from . import normalize
+        exported = {}
+        for nm, m in self.modules.items():
+            try:
+                exported[nm] = normalize.exported_constants(m.raw_tree)
+            except Exception as e:      # the canonicaliser must never be the reason a check dies
+                exported[nm] = {}
+        for nm, m in self.modules.items():
+            try:
+                m.finish(exported)
+            except RecursionError as e:
+                raise AnalysisError(f"{PKG}/{nm}.py: canonicalisation failed: {e}")
         self.t_hand = time.time() - t0
         self._gen = None
         self._db = None
